@@ -5,6 +5,7 @@ from ..cfg import Cfg, reach
 from ..common import body_by_name, callee_names, callgraph, family, last_named_field
 from ..facts import callee, op_const, op_local, op_place
 from ..flow import Flow, identity_through
+from ..inline import inlined, same_impl_helpers
 from .C02 import COMPONENT_PARSE
 from .C09 import alt_table
 from .C10 import PARSE
@@ -143,6 +144,15 @@ def machine_rule(rep, prog, cfg):
             rep.fail(rule + ".anchor", "%s/%s" % (cfg, m), RB + m, "builder method not found (state machine replaced: failing closed)")
             return
         bodies[m] = bs[0]
+    machine = {norm(b.name) for b in bodies.values()}
+    for m, b in list(bodies.items()):
+        # a transition may be split into private helpers of the builder (e.g. one that swaps the state out): analyse the
+        # method with those helpers spliced in (A12), never one transition inside another
+        base = same_impl_helpers(b)
+        ib = inlined(prog, b, lambda cb: base(cb) and norm(cb.name) not in machine)
+        if ib.raw.get("inlined"):
+            rep.sample({"C03.machine inlined into " + m: sorted(set(ib.raw["inlined"]))})
+        bodies[m] = ib
     for m, b in bodies.items():
         cells, sw = variant_cells(b, STATE)
         if cells is None:
